@@ -305,6 +305,7 @@ class Visitor(ast.NodeVisitor):
         self,
         variable_lookup: List[Mapping[str, Any]],
         code_names: Optional[Set[str]] = None,
+        qualname: Optional[str] = None,
     ) -> None:
         """
         Initialize.
@@ -315,6 +316,18 @@ class Visitor(ast.NodeVisitor):
             the compiler mangled since the condition was defined in a class body
         """
         self._code_names = code_names
+
+        # Names of the scopes enclosing the condition, the innermost first; one of them is the class
+        # whose name the compiler used to mangle the private names.
+        self._enclosing_names = (
+            [
+                part
+                for part in reversed(qualname.split("."))
+                if part not in ("<locals>", "<lambda>")
+            ]
+            if qualname is not None
+            else []
+        )
 
         # _name_to_value maps the variable names to variable values.
         # This is important for Load contexts as well as Store contexts in, e.g., named expressions.
@@ -818,27 +831,37 @@ class Visitor(ast.NodeVisitor):
                 )
             )
 
-        attr = node.attr
-        if (
-            self._code_names is not None
-            and attr.startswith("__")
-            and not attr.endswith("__")
-            and attr not in self._code_names
-        ):
-            # The compiler mangles the private names in a class body (``self.__x`` becomes ``self._SomeClass__x``).
-            for name in sorted(self._code_names):
-                if (
-                    name.startswith("_")
-                    and not name.startswith("__")
-                    and name.endswith(attr)
-                ):
-                    attr = name
-                    break
-
-        result = getattr(value, attr)
+        result = getattr(value, self._mangle(node.attr))
 
         self.recomputed_values[node] = result
         return result
+
+    def _mangle(self, attr: str) -> str:
+        """
+        Give the name which the compiler substituted for the private name in the condition.
+
+        The compiler mangles the private names in a class body: ``self.__x`` becomes ``self._SomeClass__x``.
+        """
+        if (
+            self._code_names is None
+            or not attr.startswith("__")
+            or attr.endswith("__")
+            or attr in self._code_names
+        ):
+            return attr
+
+        for enclosing_name in self._enclosing_names:
+            mangled = "_{}{}".format(enclosing_name.lstrip("_"), attr)
+            if mangled in self._code_names:
+                return mangled
+
+        return attr
+
+    def _mangle_private_names(self, node: ast.AST) -> None:
+        """Mangle the private names in the tree which is compiled anew (outside of the class body)."""
+        for child in ast.walk(node):
+            if isinstance(child, ast.Attribute):
+                child.attr = self._mangle(child.attr)
 
     if sys.version_info >= (3, 8):
 
@@ -968,6 +991,11 @@ class Visitor(ast.NodeVisitor):
         # you probably want to use ``astor`` module to generate the source code
         # based on the ``module_node``.
 
+        # The function is compiled outside of the class body, so the private names need to be mangled.
+        module_node = copy.deepcopy(module_node)
+        self._mangle_private_names(module_node)
+        ast.fix_missing_locations(module_node)
+
         code = compile(source=module_node, filename="<ast>", mode="exec")
 
         module_locals = {}  # type: Dict[str, Any]
@@ -1035,6 +1063,10 @@ class Visitor(ast.NodeVisitor):
             )
 
             module_node = ast.Module(body=[func_def_node], type_ignores=[])
+
+        # The comprehension is compiled outside of the class body, so it is copied and the private names are mangled.
+        module_node = copy.deepcopy(module_node)
+        self._mangle_private_names(module_node)
 
         ast.fix_missing_locations(module_node)
 
